@@ -356,12 +356,21 @@ def run(ctx):
         qm = bld.methods.get(query)
         own = query_summary(ctx, qm)["reads"] if qm is not None else []
         sets = [n for n in cfg.nodes if n.kind == "stmt" and isinstance(n.ast, ast.Assign) and any(is_self_attr(t) and t.attr in own for t in n.ast.targets)]
-        ok = sets and all(guarded_by(cfg, s, lambda e: isinstance(e, ast.Call) and isinstance(e.func, ast.Attribute) and e.func.attr == pred, polarity=True) is not None for s in sets)
+        # the predicate may have been read into a local first: flag = argument.is_x(); if flag: ...
+        flag_locals = {t.id for n_ in walk_no_nested(m.node) if isinstance(n_, ast.Assign) and isinstance(n_.value, ast.Call) and isinstance(n_.value.func, ast.Attribute) and n_.value.func.attr == pred
+                       for t in n_.targets if isinstance(t, ast.Name)}
+        flag_locals = {x for x in flag_locals if len(cfg.writes(lambda t, x=x: t == x)) == 1}
+        ok = sets and all(guarded_by(cfg, s, lambda e: (isinstance(e, ast.Call) and isinstance(e.func, ast.Attribute) and e.func.attr == pred) or (isinstance(e, ast.Name) and e.id in flag_locals), polarity=True) is not None for s in sets)
         extra = []
         if ok:
             # ... and under no further test of the element: an optional multi-valued argument sets both markers
             for s_ in sets:
                 for e in cfg.nodes:
+                    all_flag_locals = {t.id: n_.value.func.attr for n_ in walk_no_nested(m.node) if isinstance(n_, ast.Assign) and isinstance(n_.value, ast.Call) and isinstance(n_.value.func, ast.Attribute)
+                                       and n_.value.func.attr.startswith("is_") for t in n_.targets if isinstance(t, ast.Name)}
+                    if e.kind in ("T", "F") and isinstance(e.ast, ast.Name) and e.ast.id in all_flag_locals and not (e.kind == "T" and all_flag_locals[e.ast.id] == pred) and cfg.dominates(e.id, s_.id):
+                        extra.append("%s%s()" % ("" if e.kind == "T" else "not ", all_flag_locals[e.ast.id]))
+                        continue
                     if e.kind in ("T", "F") and isinstance(e.ast, ast.Call) and isinstance(e.ast.func, ast.Attribute) and e.ast.func.attr.startswith("is_") \
                             and not (e.kind == "T" and e.ast.func.attr == pred) and cfg.dominates(e.id, s_.id):
                         other = cfg.true_of(e.cond) if e.kind == "F" else cfg.false_of(e.cond)
